@@ -168,6 +168,8 @@ def timeout_add_seconds(interval, func, *args, **_kw):
 
 def io_add_watch(sock, *rest):
     # GLib.io_add_watch(channel, [priority,] condition, func, *args)
+    # (PyGObject accepts a file descriptor, an object with fileno() or a GLib.IOChannel and asserts otherwise)
+    assert isinstance(sock, int) or hasattr(sock, 'fileno'), 'expected an IO channel, got %r' % (sock,)
     if callable(rest[1]):
         cond, func, args = rest[0], rest[1], rest[2:]
     else:
